@@ -204,6 +204,8 @@ class Run:
         self.trace = []
         self.sched = core.Sched(chooser=chooser, max_steps=max_steps, trace=self.trace)
         self.problems = []          # oracle findings [(signature-kind, text)]
+        self.twins = {}             # download -> future bound to the real monitor (non-yielding done())
+        self.future_done_seen = {}
         self.deadlock = None
         self.livelock = None
         self.branching = []
@@ -470,6 +472,27 @@ class Run:
             if st.done and t not in self.done_seen:
                 self.done_seen[t] = sched.step
                 self.check_done(t, 'at-done')
+        # the public view: future.done() (evaluated on a twin future bound to the real monitor, so that
+        # the observation is not a scheduling point) must not run ahead of the protocol
+        for d, f in list(self.futures.items()):
+            t = f.meta.transfer_id
+            tw = self.twins.get(d)
+            if tw is None:
+                try:
+                    tw = self.twins[d] = type(f)(monitor=self.real_monitor, meta=f.meta)
+                except Exception:
+                    self.twins[d] = tw = False
+            if tw and t not in self.future_done_seen:
+                try:
+                    fd = bool(tw.done())
+                except Exception:
+                    fd = False
+                if fd:
+                    self.future_done_seen[t] = sched.step
+                    if t not in self.done_seen:
+                        # done() says True although the monitor has not marked the transfer done:
+                        # judge the directory and the job accounting at this very moment
+                        self.check_done(t, 'future.done()-true')
 
     def dl_of(self, t):
         for d, f in self.futures.items():
